@@ -393,19 +393,32 @@ static uint64_t p2_count(int thorough) { return vh_scaled(thorough ? 300000 : 30
 static void p2_run(uint64_t idx, vh_rng_t * rng) {
     static vh_buf_t msg; vh_ctx_t * v; int nm = 1 + (int) vh_below(rng, 3), m, last_err = 0, partial = vh_chance(rng, 1, 5); scpi_bool_t ret; char key[96];
     static const struct { const char * t; int err; } ms[] = { { "NOOP", 0 }, { "NOOP 1", 1 }, { "CMD", 0 }, { "FOO", 1 }, { "NOOP;FOO", 1 }, { "FOO;NOOP", 1 }, { "$", 1 }, { "", 0 }, { "  NOOP ; NOOP", 0 }, { "CMD 1,,2", 1 } };
-    size_t bufsz = vh_chance(rng, 1, 4) ? 8 + vh_below(rng, 16) : 64; int executed = 0;
+    size_t bufsz = vh_chance(rng, 1, 4) ? 8 + vh_below(rng, 16) : 64; int executed = 0, overlong = 0, errs_before_overlong = 0, errs_all = 0;
     (void) idx;
     memset(&sig, 0, sizeof sig);
     vh_buf_reset(&msg);
-    for (m = 0; m < nm; m++) { int k = (int) vh_below(rng, sizeof ms / sizeof ms[0]); vh_buf_adds(&msg, ms[k].t); vh_buf_addc(&msg, '\n'); last_err = ms[k].err; executed++; }
+    for (m = 0; m < nm; m++) {
+        int k = (int) vh_below(rng, sizeof ms / sizeof ms[0]);
+        if (!overlong) { if (strlen(ms[k].t) + 1 >= bufsz) overlong = 1; else errs_before_overlong += ms[k].err; }
+        vh_buf_adds(&msg, ms[k].t); vh_buf_addc(&msg, '\n'); last_err = ms[k].err; errs_all += ms[k].err; executed++;
+    }
     if (partial) vh_buf_adds(&msg, "NOOP 1"); /* unterminated tail: not executed by this call */
     vh_case_desc("input call %s", vh_esc(msg.p, msg.len));
     v = vh_ctx_new(cmds, bufsz, 8, 64); v->log_enabled = 0; v->sigs = &sig; v->nsigs = 1;
     if (msg.len >= bufsz) {
+        /* The chunk is longer than the buffer. The statement does not say what "overran" means for a chunk whose MESSAGES would each fit: the
+         * library may refuse the whole call (one -363, nothing executed, false) or take the chunk over piecewise and execute it like a finer
+         * partition (then no -363, and the last-message rule decides). A chunk with a message that cannot fit (overlong) must end in -363 and false,
+         * after at most the errors of the messages in front of it. (round 7, benign change C01-H) */
+        int refused, piecewise;
         ret = vh_input(v, msg.p, msg.len);
-        if (ret) vh_violation("C05:input-return-value:true-on-overrun", "chunk of %zu bytes into a %zu-byte buffer returned true", msg.len, bufsz);
-        else if (v->nerrs != 1 || v->errs[0] != -363) vh_violation("C05:overrun-error", "overrun raised %d errors (first %d)", v->nerrs, v->nerrs ? v->errs[0] : 0);
-        else vh_count("clause.return_false_on_overrun", 1);
+        refused = !ret && v->nerrs == 1 && v->errs[0] == -363;
+        if (overlong) piecewise = !ret && v->nerrs == 1 + errs_before_overlong && v->errs[v->nerrs - 1] == -363;
+        else { int i; piecewise = (ret ? 1 : 0) == !last_err && v->nerrs == errs_all; for (i = 0; i < v->nerrs; i++) if (v->errs[i] == -363) piecewise = 0; }
+        if (refused) vh_count("clause.return_false_on_overrun", 1);
+        else if (piecewise) vh_count(overlong ? "clause.return_false_on_overrun" : "return.oversize_chunk_taken_piecewise", 1);
+        else if (ret && (overlong || (v->nerrs && v->errs[v->nerrs - 1] == -363))) vh_violation("C05:input-return-value:true-on-overrun", "chunk of %zu bytes into a %zu-byte buffer returned true (%d errors, last %d)", msg.len, bufsz, v->nerrs, v->nerrs ? v->errs[v->nerrs - 1] : 0);
+        else vh_violation("C05:overrun-error", "chunk of %zu bytes into a %zu-byte buffer returned %d and raised %d errors (first %d, last %d): neither refused as a whole (one -363, false) nor executed like a finer partition (%d errors, %s)", msg.len, bufsz, (int) ret, v->nerrs, v->nerrs ? v->errs[0] : 0, v->nerrs ? v->errs[v->nerrs - 1] : 0, overlong ? errs_before_overlong + 1 : errs_all, overlong || last_err ? "false" : "true");
     } else {
         ret = vh_input(v, msg.p, msg.len);
         if ((ret ? 1 : 0) != !last_err) { snprintf(key, sizeof key, "C05:input-return-value:multi-message:%s", ret ? "true-although-last-message-failed" : "false-although-last-message-succeeded"); vh_violation(key, "call %s returned %d; last executed message %s", vh_esc(msg.p, msg.len), (int) ret, last_err ? "raised an error" : "raised none"); }
